@@ -288,7 +288,9 @@ def report_exception(ctx, e, cr, src, detail):
         what = ("X05: Symmetry raises AttributeError on a magnetic cell: spglib could not identify the magnetic "
                 "space-group type (get_magnetic_symmetry_dataset returned None) although the operations exist")
         ctx.extra["magnetic_dataset_none"] = ctx.extra.get("magnetic_dataset_none", 0) + 1
-    ctx.violation(key, what, dict(source=src, crystal=cr, err=repr(e), tb=traceback.format_exc()[-1500:], **detail))
+    d = dict(detail)
+    d.update(source=src, crystal=cr, err=repr(e), tb=traceback.format_exc()[-1500:])
+    ctx.violation(key, what, d)
 
 
 def make_event(cr, bx, logged, src, symprec, noise, a, sym, s2p):
